@@ -1,19 +1,69 @@
-//! Facade for `scoped_threadpool`: every job of a scope becomes its own simulator task
-//! (shuttle scoped thread); `scoped` returns when all jobs have finished, like the original.
-//! The original keeps N OS threads alive and hands jobs to them over a channel; for the
-//! callers in dora-runtime (exactly N jobs per scope, one per worker) the two are
-//! indistinguishable except that job->thread assignment does not exist here.
+//! Facade for `scoped_threadpool`: N persistent worker tasks of the simulator take jobs from
+//! a shared queue (simulator mutex + condvar), `scoped` returns when every job submitted in
+//! the scope has finished, dropping the pool stops and joins the workers - the structure of
+//! the original crate, with every hand-over a scheduling point.
 
+use shuttle::sync::{Condvar, Mutex};
+use std::collections::VecDeque;
 use std::marker::PhantomData;
+use std::sync::Arc;
+
+type Job = Box<dyn FnOnce() + Send + 'static>;
+
+enum Msg {
+    Run(Job),
+    Stop,
+}
+
+struct Shared {
+    queue: Mutex<VecDeque<Msg>>,
+    available: Condvar,
+    pending: Mutex<usize>,
+    all_done: Condvar,
+}
 
 pub struct Pool {
     n: u32,
+    shared: Arc<Shared>,
+    handles: Vec<shuttle::thread::JoinHandle<()>>,
 }
 
 impl Pool {
     pub fn new(n: u32) -> Pool {
         assert!(n >= 1);
-        Pool { n }
+        let shared = Arc::new(Shared {
+            queue: Mutex::new(VecDeque::new()),
+            available: Condvar::new(),
+            pending: Mutex::new(0),
+            all_done: Condvar::new(),
+        });
+        let mut handles = Vec::new();
+        for _ in 0..n {
+            let shared = shared.clone();
+            handles.push(shuttle::thread::spawn(move || loop {
+                let msg = {
+                    let mut q = shared.queue.lock().unwrap();
+                    loop {
+                        if let Some(m) = q.pop_front() {
+                            break m;
+                        }
+                        q = shared.available.wait(q).unwrap();
+                    }
+                };
+                match msg {
+                    Msg::Stop => break,
+                    Msg::Run(job) => {
+                        job();
+                        let mut p = shared.pending.lock().unwrap();
+                        *p -= 1;
+                        if *p == 0 {
+                            shared.all_done.notify_all();
+                        }
+                    }
+                }
+            }));
+        }
+        Pool { n, shared, handles }
     }
 
     pub fn thread_count(&self) -> u32 {
@@ -24,18 +74,34 @@ impl Pool {
     where
         F: FnOnce(&Scope<'pool, 'scope>) -> R,
     {
-        let scope = Scope { jobs: std::cell::RefCell::new(Vec::new()), _p: PhantomData };
+        let scope = Scope { pool: self, _p: PhantomData };
         let r = f(&scope);
         scope.join_all();
         r
     }
 }
 
-type Job<'scope> = Box<dyn FnOnce() + Send + 'scope>;
+impl Drop for Pool {
+    fn drop(&mut self) {
+        if !verif_rt::is_active() {
+            return;
+        }
+        {
+            let mut q = self.shared.queue.lock().unwrap();
+            for _ in 0..self.n {
+                q.push_back(Msg::Stop);
+            }
+        }
+        self.shared.available.notify_all();
+        for h in self.handles.drain(..) {
+            let _ = h.join();
+        }
+    }
+}
 
 pub struct Scope<'pool, 'scope> {
-    jobs: std::cell::RefCell<Vec<Job<'scope>>>,
-    _p: PhantomData<&'pool mut Pool>,
+    pool: &'pool mut Pool,
+    _p: PhantomData<&'scope ()>,
 }
 
 impl<'pool, 'scope> Scope<'pool, 'scope> {
@@ -43,21 +109,19 @@ impl<'pool, 'scope> Scope<'pool, 'scope> {
     where
         F: FnOnce() + Send + 'scope,
     {
-        self.jobs.borrow_mut().push(Box::new(f));
+        // SAFETY: `scoped` joins every job before returning, and 'scope outlives that call;
+        // the transmute only erases the lifetime (the original crate does the same).
+        let job: Box<dyn FnOnce() + Send + 'scope> = Box::new(f);
+        let job: Job = unsafe { std::mem::transmute(job) };
+        *self.pool.shared.pending.lock().unwrap() += 1;
+        self.pool.shared.queue.lock().unwrap().push_back(Msg::Run(job));
+        self.pool.shared.available.notify_one();
     }
 
     pub fn join_all(&self) {
-        let jobs: Vec<Job<'scope>> = std::mem::take(&mut *self.jobs.borrow_mut());
-        if jobs.is_empty() {
-            return;
+        let mut p = self.pool.shared.pending.lock().unwrap();
+        while *p > 0 {
+            p = self.pool.shared.all_done.wait(p).unwrap();
         }
-        shuttle::thread::scope(|s| {
-            for job in jobs {
-                // SAFETY: the scope joins every task before returning, and 'scope outlives
-                // this call; the transmute only erases the lifetime for shuttle's signature.
-                let job: Box<dyn FnOnce() + Send + 'static> = unsafe { std::mem::transmute(job) };
-                s.spawn(move || job());
-            }
-        });
     }
 }
